@@ -1229,6 +1229,31 @@ fn rules_b(quick: bool) -> Vec<String> {
             }
         }
     }
+    // the initiator option written twice: every list cut at every position into an all-positive and
+    // an all-negated option (for those, "every option is satisfied" and "the entries of both options
+    // form one list" say the same; two options of one sign, or mixed ones, are not pinned); the
+    // second may be `from=`, and another option may stand between them
+    for form in ["ads", "*"] {
+        for exception in [false, true] {
+            for list in &lists {
+                let entries: Vec<&str> = list.split('|').collect();
+                for cut in 1..entries.len() {
+                    let pure = |e: &[&str]| e.iter().all(|d| d.starts_with('~')) || e.iter().all(|d| !d.starts_with('~'));
+                    if !pure(&entries[..cut]) || !pure(&entries[cut..]) || entries[0].starts_with('~') == entries[cut].starts_with('~') {
+                        continue;
+                    }
+                    let (x, y) = (entries[..cut].join("|"), entries[cut..].join("|"));
+                    for opts in [
+                        vec![format!("domain={}", x), format!("domain={}", y)],
+                        vec![format!("domain={}", x), format!("from={}", y)],
+                        vec![format!("from={}", x), "script".to_string(), format!("domain={}", y)],
+                    ] {
+                        out.push(assemble(exception, form, &opts));
+                    }
+                }
+            }
+        }
+    }
     out
 }
 
